@@ -46,6 +46,11 @@ CHECKS = {
          "Every set/get sequence up to length 4 (quick) / 5 (thorough) over 24 operations, for three limit/size/time settings, plus random sequences (to 120 ops, 32 keys, limits 0..64 KiB, time limits 0/1/60) and 2000-op sequences, is applied to the real Cache and to a reference map; after every step all keys ever stored are looked up: a hit must be exactly the latest bytes and MIME type for that (host, path), retrievable bytes must not exceed the limit, and a stored item must be retrievable at once. 1..8 threads use one RwLock<Cache> as the handlers do with operations numbered under the lock, and the log is replayed on the model. Sleep cases check expiry; file_handler/directory_handler run over files rewritten between requests (body = current content or content served before for the same (host, uri)).",
          "Trusts the reference map model and wall-clock seconds for the few expiry cases (a miss right after a set is tolerated only when time_limit=0 and the second changed). Set sizes never exceed the limit, as the only caller guarantees.",
          "DESIGN.md §5 C16"),
+ "C15": ("exploration",
+         "model-based generation: a configuration model rendered by a randomising printer (round-trip against the model, metamorphic across layouts) + single-fault mutation with expected rejection and error location",
+         "Configuration models (all documented keys, 0..4 hosts, 0..8 routes of every type incl. multi-pattern routes, proxy lists, size units in both cases, noise keys/sections) are rendered with random indentation, comments, blank lines, key order and include-file splitting nested to 3, in three layouts; parse_conf + Config::from_tree must succeed and equal the model field by field with file order and defaults. For each of nine single-fault mutant classes (missing { or }, missing value, bad number, bad enum, unknown unit, unterminated quote, out-of-range, non-ASCII at a random position, in the main or an included file) the loader must return an error that names the right file and line for syntax-level faults, and never panic or accept the file.",
+         "Trusts the model-to-Config comparison and the printer (restricted to the documented syntax: exact `server {`, spaces between key and value, no `#` inside quoted values, no duplicate keys).",
+         "DESIGN.md §5 C15"),
 }
 
 NOT_YET = "check not built yet (work in progress; see DESIGN.md §5 for the intended design)"
